@@ -15,6 +15,7 @@ RULE = (
     "up to the depth bound is encoded by the reference TLV encoder, decoded by BeaconConfig(block) and compared "
     "record-for-record (index, type, length, value) and view-for-view (name/const/enum x raw/pretty x parse) with the "
     "reference mapping semantics. non-trivial = at least one record is expected to be decoded"
+    '. Added: the enum-indexed view is compared entry for entry with the name-indexed view; records of one index with two values / types; User-Agent records longer than the field. '
 )
 ASSUMPTIONS = [
     "a SHORT/INT record whose length is not 2/4 exposes the big-endian integer of its first 2/4 bytes",
